@@ -12,6 +12,7 @@ import (
 	"strings"
 	"testing"
 	"testing/synctest"
+	"time"
 
 	utls "github.com/refraction-networking/utls"
 	"github.com/wi1dcard/fingerproxy"
@@ -20,6 +21,7 @@ import (
 	"verif/bubble"
 	"verif/ev"
 	"verif/mc"
+	"verif/ref/h2wire"
 )
 
 type ua struct {
@@ -58,13 +60,16 @@ func TestCheck(t *testing.T) {
 				if job%of != shard {
 					continue
 				}
-				runGroup(t, rep, probeOn, proto, method)
+				runGroup(t, rep, probeOn, proto, method, false)
+				// the same matrix on a connection with a past: an upload with a trailer section has been forwarded on it, and it
+				// is older than the TLS handshake timeout (but younger than the read and idle timeouts)
+				runGroup(t, rep, probeOn, proto, method, true)
 			}
 		}
 	}
 }
 
-func runGroup(t *testing.T, rep *ev.Report, probeOn bool, proto, method string) {
+func runGroup(t *testing.T, rep *ev.Report, probeOn bool, proto, method string, aged bool) {
 	res := bubble.Run(t, func() {
 		fingerproxy.VerifSetFlags(fingerproxy.VerifFlags{Probe: probeOn, Flush: "100ms", Idle: "180s", Read: "60s", Write: "60s", TLSHandshake: "10s"})
 		to, _ := url.Parse("http://backend.internal:8080")
@@ -94,6 +99,31 @@ func runGroup(t *testing.T, rep *ev.Report, probeOn bool, proto, method string) 
 		}
 		col := bubble.NewH2Collector()
 		stream := uint32(1)
+		if aged {
+			if proto == "h2" {
+				blk := cl.Enc.Block(h2wire.HF{Name: ":method", Value: "POST"}, h2wire.HF{Name: ":scheme", Value: "https"}, h2wire.HF{Name: ":authority", Value: "localhost"},
+					h2wire.HF{Name: ":path", Value: "/upload"}, h2wire.HF{Name: "user-agent", Value: "uploader/1"}, h2wire.HF{Name: "trailer", Value: "X-Sum"})
+				cl.Write(h2wire.Headers(stream, blk, false, true, nil, -1))
+				cl.Write(h2wire.Data(stream, []byte("payload"), false, -1))
+				cl.Write(h2wire.Headers(stream, cl.Enc.Block(h2wire.HF{Name: "x-sum", Value: "1"}), true, true, nil, -1))
+				synctest.Wait()
+				col.Add(cl.Dec, cl.TakeFrames())
+				if r := col.Resps[stream]; r == nil || !r.Ended || r.Status != "203" {
+					rep.Violate(map[string]any{"kind": "upload-with-trailers-not-forwarded", "proto": proto}, map[string]any{"proto": proto}, "h2 upload with a trailer section (no probe User-Agent) was not forwarded and answered by the backend: %+v", r)
+					return
+				}
+				stream += 2
+			} else {
+				cl.Write([]byte("POST /upload HTTP/1.1\r\nHost: localhost\r\nUser-Agent: uploader/1\r\nTransfer-Encoding: chunked\r\nTrailer: X-Sum\r\n\r\n7\r\npayload\r\n0\r\nX-Sum: 1\r\n\r\n"))
+				synctest.Wait()
+				if rs := cl.TakeH1Responses("POST"); len(rs) != 1 || rs[0].Status != 203 {
+					rep.Violate(map[string]any{"kind": "upload-with-trailers-not-forwarded", "proto": proto}, map[string]any{"proto": proto}, "h1 chunked upload with a trailer section (no probe User-Agent) was not forwarded and answered by the backend (%d responses)", len(rs))
+					return
+				}
+			}
+			time.Sleep(11 * time.Second)
+			synctest.Wait()
+		}
 		n := 0
 		for _, u := range uas {
 			if u.h1only && proto == "h2" {
@@ -155,6 +185,9 @@ func runGroup(t *testing.T, rep *ev.Report, probeOn bool, proto, method string) 
 					grew := rec.Count() - before
 					wantLocal := probeOn && u.probe
 					desc := fmt.Sprintf("probe=%v %s %s %s ua=%s other=%d", probeOn, proto, method, path, u.name, len(other))
+					if aged {
+						desc += " (connection 11 s old, after an upload with trailers)"
+					}
 					if strings.Contains(fmt.Sprint(lines), "kube-probe") {
 						rep.Note("distinct_nontrivial", desc)
 					}
